@@ -918,13 +918,17 @@ fn drive_escapes(sink: &mut Sink, _rng: &mut Rng, n: usize) {
 // naming convention of one ecosystem is invisible to generators that draw from small abstract alphabets.
 const V_TYPES: &[&str] = &["generic", "maven", "npm", "golang", "pypi", "nuget", "cargo", "gem", "deb", "docker", "github", "oci", "rpm", "conan", "hex", "swift"];
 const V_NS: &[&str] = &["", "org.apache.commons", "@angular", "github.com/go-redis/redis", "library", "debian", "Some.Group", "gopkg.in", "k8s.io/api"];
-const V_NAMES: &[&str] = &["io", "cli", "v8", "v2", "v10", "redis", "Django_.-pkg", "Newtonsoft.Json", "yaml.v3", "commons-io", "curl", "jar", "type"];
+const V_NAMES: &[&str] = &["io", "cli", "v8", "v2", "v10", "redis", "Django_.-pkg", "Newtonsoft.Json", "yaml.v3", "commons-io", "curl", "jar", "type",
+                           "serde_json", "requests[security]", "BurntSushi", "!burnt!sushi"];
 const V_VERS: &[&str] = &["", "1.0.0", "v8.11.5", "2", "10", "1a", "1.2.0", "1.10.0", "1.1rc.0", "1.0.0-rc.1+build.5", "sha256:abcd", "latest", "v2", "7.50.3-1"];
 const V_KEYS: &[&str] = &["repository_url", "download_url", "vcs_url", "file_name", "checksum", "arch", "os", "distro", "type", "classifier", "platform",
                           "ext", "packaging", "epoch", "tag", "channel", "subdir", "build", "Type", "VCS_URL"];
 const V_VALS: &[&str] = &["jar", "pom", "sources", "war", "zip", "linux", "amd64", "x86_64", "noarch", "java", "ruby", "1", "true",
                           "git+https://git.fsfe.org/dxtr/bitwarderl@cc55108da32", "https://repo.example.org/a?b=c&d=e#f", "docker.io/library/debian",
-                          "sha1:ad9503c3e994a4f611a4892f2e67ac82df727086", "sha256:AABB,md5:00ff", "sha512-256:a1,sha512:a0", "debian-11", " "];
+                          "sha1:ad9503c3e994a4f611a4892f2e67ac82df727086", "sha256:AABB,md5:00ff", "sha512-256:a1,sha512:a0", "debian-11", " ",
+                          // the ecosystems' default registries (a "helpful" normalisation would drop them)
+                          "https://registry.npmjs.org", "https://repo.maven.apache.org/maven2", "https://pypi.org/simple", "https://crates.io",
+                          "https://rubygems.org", "https://proxy.golang.org", "https://api.nuget.org/v3/index.json", "docker.io", "hub.docker.com"];
 const V_SUBS: &[&str] = &["", "src/main", "cmd/tool/v2", "googleapis/api/annotations", "v2"];
 const V_COMBINED: &[&str] = &["github.com/!burnt!sushi/toml", "example.com/!x", "!a/b", "a/!b", "github.com/go-redis/redis/v8", "a/v2", "a/v10/b", "example.com/m/v10", "gopkg.in/yaml.v3", "k8s.io/api/v0", "@angular/cli", "@types%2Fnode",
                               "@types/node/v2", "org.apache.commons:io", "g:a:v2", "org.apache:commons/io", "libc", "v2", "/v2", "a/v2/"];
